@@ -92,6 +92,9 @@ def _more_programs(names):
     yield f"(defn f [] (setv {init}) (defn g [] (lfor i [1 2] (do (nonlocal {ns}) (setv {asg} extra i) i))) (g))"
     yield f"(defn f [] (setv {init}) (defn g [] (lfor i [1 2] :do (nonlocal {ns}) :do (setv {asg} extra i) i)) (g))"
     yield f"(setv {init}) (defn g [] (gfor i [1 2] :do (global {ns}) :do (setv {asg} extra i) i))"
+    # a declaration of ONE outer name plus several NEW names assigned in the same lowered comprehension
+    yield f"(defn f [] (setv total 0) (defn g [] (lfor i [1 2] :do (nonlocal total) :do (setv total i {asg}) i)) (g))"
+    yield f"(setv total 0) (defn g [] (sfor i [1 2] (do (global total) (setv total i {asg}) i))) (g)"
     yield f"(defn f [] (setv {init}) (defclass K [] (nonlocal {ns}) (setv {asg.replace(' i', ' 1')})))"
     yield f"(defn f [] (let [{init}] (fn [] (nonlocal {ns}) (setv {asg.replace(' i', ' 1')}))))"
 
